@@ -244,5 +244,46 @@ MANIFEST_TEXT["C17"] = {
     "technique": "runtime differential monitor HTTP vs embedded API + error-status / continued-service monitor",
 }
 
-META["C05"] = {"level": "exploration", "rule": "placeholder", "budget": {"quick": 100, "thorough": 900}, "relfast": True, "floors": {"quick": {"evaluations": 1500, "distinct": 20}}, "assumptions": COMMON_ASSUMPTIONS + TOL}
-META["C06"] = {"level": "exploration", "rule": "placeholder", "budget": {"quick": 100, "thorough": 900}, "relfast": True, "floors": {"quick": {"evaluations": 1500, "distinct": 20}}, "assumptions": COMMON_ASSUMPTIONS + TOL}
+META["C05"] = {
+    "level": "exploration",
+    "rule": "Tables with sort-key columns of every kind (u8, nullable u8, offset, negative offset, u16, full i64, nullable i64, heavy ties, constant, float, nullable float, dictionary / nullable / high-cardinality / hex strings), 40-2600 rows in 1-5 partitions of unequal length (optionally unflushed tail, cold disk). Statements SELECT id[, keys] FROM t [WHERE p] ORDER BY k1 [DESC][, k2, k3] LIMIT n OFFSET m with 0-3 keys (columns and c/10 expressions, every ASC/DESC mix) and n, m drawn from {0,1,2, L/2-1, L/2, L/2+1, L-1, L, L+1, N-1, N, N+1, N+2} (L = longest partition, N = table), plus LIMIT/OFFSET without ORDER BY (ingestion order). Oracle: result length = min(n, max(0, N-m)); the key tuple at every position equals the reference key sequence (unique even with ties); every returned row is an unused row of the table carrying exactly that key tuple (ties in any order, no duplicates). Distinct non-trivial = distinct (key kinds + directions, clauses, limit/offset position classes, partition count, sort operators seen in the executed plan) with more than one candidate row. Disagreements are shrunk and classified.",
+    "budget": {"quick": 100, "thorough": 900},
+    "relfast": True,
+    "floors": {"quick": {"evaluations": 2500, "distinct": 500, "counters": {"nontrivial_agree": 1000}, "sets": {"sort_paths": ["top_n", "sort_by", "merge"]}}},
+    "assumptions": COMMON_ASSUMPTIONS + TOL,
+}
+MANIFEST_TEXT["C05"] = {
+    "level_text": "Differential monitor for ordered / limited statements: key sequence and tie-group membership are compared with a reference sort (NULL last, first when descending) at limits and offsets placed around the top-n / full-sort switch (L/2), the partition length and the table length, over 1-5 partitions; the sort operators actually executed are read from the plan.",
+    "design_ref": "DESIGN.md section 3, C05",
+    "level_note": "Trusted: reference comparator. Known finding: secondary keys ignored among rows whose leading key is NULL.",
+    "technique": "runtime differential monitor (key sequence + tie groups vs reference sort) with shrinking and panic/hang monitors",
+}
+META["C06"] = {
+    "level": "exploration",
+    "rule": "Integer columns in every narrow encoding (u8, nullable u8, positive and negative offset, u16, u32, small mixed sign) plus raw-i64 columns holding the edge values {0, +-1, 2, 255, 256, 65535, 65536, 2^32-1, 2^32, 2^32+1, i64::MIN, i64::MIN+1, 2^63-2, +-2^62, 3037000499, 3037000500}, a zero-rich divisor column and a strictly positive one; 30-400 rows in 1-4 partitions. Statements: SELECT id, e FROM t with expression trees of depth <= 3 over {+,-,*,/,%}, columns and edge constants; and SUM over three layouts (overflow inside one partition, only when partial sums of >= 2 partitions merge, transiently although the total fits) with and without grouping. Oracle (i128 reference): if any row overflows i64 or divides by zero the query must NOT return a result (T-OVF); otherwise every cell must be exact, NULL operands give NULL; a transient SUM overflow may return the exact total or fail, never another number. Distinct non-trivial = distinct (expression shape, must_fail | must_be_exact).",
+    "budget": {"quick": 100, "thorough": 900},
+    "relfast": True,
+    "floors": {"quick": {"evaluations": 3000, "distinct": 400, "counters": {"agree:must_fail": 500, "agree:must_be_exact": 500}}},
+    "assumptions": COMMON_ASSUMPTIONS + TOL + ["A spurious Overflow error (e.g. (i64::MIN+1) / -1) is an error value and makes no claim: the property allows the query to fail."],
+}
+MANIFEST_TEXT["C06"] = {
+    "level_text": "Differential monitor against exact i128 arithmetic with operands placed on the edges of every encoding and of i64: statements whose reference overflows or divides by zero must fail, all others must be cell-exact; SUM layouts separate overflow inside a partition, at merge time and transient overflow. The thorough tier repeats the run on a wrapping (release-semantics) build.",
+    "design_ref": "DESIGN.md section 3, C06",
+    "level_note": "Quick tier runs the overflow-checking build (a missing check shows as a worker panic); the thorough tier adds the relfast profile where it shows as a wrong number.",
+    "technique": "runtime differential monitor against an exact-arithmetic reference, boundary-value operand generators, two build profiles",
+}
+META["C02"] = {
+    "level": "exploration",
+    "rule": "Per case one logical table (one column per encoding incl. nullable and partially absent columns, 90 / 300 / 1400 rows) is realised as a baseline (one unflushed batch, memory only, 1 thread) and k=4 (quick) / 12 other layouts drawn from: 1-6 batches at random cut points, flush after a random subset, partition_combine_factor {0,1,4,999}, mem_lz4 on/off, max_partition_size_bytes {1,64,4096,default}, batch_size {8,16,64,1024}, threads {1,2,8}, memory / disk / evicted / restarted-and-cold (each option value at least once per case family). A battery of 40 statements per case (plain select, WHERE trees, single-key and group-less aggregates, ORDER BY..LIMIT/OFFSET, integer arithmetic) runs on every layout. Oracle: each answer equals the reference answer (with shrinking/diagnosis as in C03-C06) and equals the baseline's answer (multiset for unordered groups, float sums within 1e-9 relative); where the reference makes no claim the pairwise comparison alone decides. Layout coverage is measured from public observations (partition count, file count, cold reads). One evaluation = one answer or pair judged. Distinct non-trivial = distinct (statement family, partition count, disk, factor, batch size, threads) pairs that agreed with the baseline.",
+    "budget": {"quick": 120, "thorough": 1200},
+    "relfast": True,
+    "floors": {"quick": {"evaluations": 6000, "distinct": 250, "counters": {"pairs_equal": 2500, "cold_queries": 50},
+                         "sets": {"option_values": ["factor=0", "factor=1", "factor=4", "factor=999", "subpart=1", "subpart=64", "subpart=4096", "batch=8", "batch=16", "batch=64", "batch=1024", "threads=1", "threads=2", "threads=8"]}}},
+    "assumptions": COMMON_ASSUMPTIONS + TOL + ["Multi-key / nullable-key grouping is excluded from the battery (C04 known findings); an error value on one layout only is counted, not judged."],
+}
+MANIFEST_TEXT["C02"] = {
+    "level_text": "Metamorphic + differential monitor: the same logical table in a baseline and several random physical realisations (splits, flush points, compaction factor, compression, sub-partition size, streaming batch size, worker threads, memory / disk / evicted / restarted) must answer every statement of a mixed battery identically and like the reference; the layouts actually produced are measured.",
+    "design_ref": "DESIGN.md section 3, C02",
+    "level_note": "Realisations and statements are seeded samples; every option value named in the property is covered per run (coverage floor).",
+    "technique": "runtime metamorphic monitor (pairwise equality across physical realisations) + differential comparison with a reference evaluator",
+}
